@@ -61,14 +61,14 @@ def base_programs(rng, n):
         tries += 1
         r = rng.random()
         if r < 0.4:
-            prog, _ = gen.random_flat(rng, n_nodes=(3, 5), cyclic=0.0, gate=0.0, multi_out=0.3, defaults=0.2, bound=0.2, fail=0.08)
+            prog, _ = gen.random_flat(rng, n_nodes=(3, 5), cyclic=0.0, gate=0.0, multi_out=0.3, defaults=0.2, bound=0.2, fail=0.08, gens=0.2)
             subs = list(gen.convex_subsets(prog))
             if subs and rng.random() < 0.5:
                 S = rng.choice(subs)
                 prog = gen.nest(prog, S, pos=rng.randint(0, len(prog["nodes"]) - len(S)))
             kind = "dag"
         else:
-            prog, _ = gen.random_flat(rng, n_nodes=(2, 5), cyclic=0.35, gate=0.6, multi_out=0.2, defaults=0.2, bound=0.1, emit=0.2, fail=0.08, max_iter=8)
+            prog, _ = gen.random_flat(rng, n_nodes=(2, 5), cyclic=0.35, gate=0.6, multi_out=0.2, defaults=0.2, bound=0.1, emit=0.2, fail=0.08, max_iter=8, gens=0.15)
             kind = "gated"
         try:
             prov = build.suggest_inputs(prog, rng)
